@@ -113,6 +113,10 @@ func runC14(args []string) int {
 		junk  []byte
 	}
 	var cases []streamCase
+	bigLeft := 5
+	if o.tier == "thorough" {
+		bigLeft = 40
+	}
 	for i := 0; i < nstreams; i++ {
 		var data []byte
 		if i < len(golden) {
@@ -122,6 +126,11 @@ func runC14(args []string) int {
 			switch rg.intn(10) {
 			case 0:
 				n = rg.intn(4)
+				if bigLeft > 0 {
+					// single writes around and beyond 2^16 bytes (length counters narrower than int)
+					bigLeft--
+					n = []int{65535, 65536, 65537, 131072, 196613}[bigLeft%5]
+				}
 			case 1:
 				n = 4090 + rg.intn(20)
 			default:
@@ -169,8 +178,19 @@ func runC14(args []string) int {
 	for i, c := range cases {
 		whole := dyncrc16.Checksum(c.data)
 		h := dyncrc16.New()
-		for _, p := range c.parts {
+		for pi, p := range c.parts {
 			h.Write(p)
+			// observing the running sum between writes must not disturb it (the streaming state is just the register)
+			if (pi+len(c.data))%3 == 0 {
+				before := h.Sum16()
+				got := h.Sum([]byte{0xAB})
+				h.Size()
+				h.BlockSize()
+				if len(got) != 3 || got[0] != 0xAB || got[1] != byte(before>>8) || got[2] != byte(before) || h.Sum16() != before {
+					r.specFail("observer", fmt.Sprintf("Sum/Size/BlockSize between writes disturb or misreport the running sum (0x%04x before, Sum gives %x, 0x%04x after)", before, got, h.Sum16()),
+						map[string]interface{}{"entry": "dyncrc16.Write/Sum", "data_hex": hexs(c.data), "partition": partLens(c.parts), "after_write": pi})
+				}
+			}
 		}
 		parts := h.Sum16()
 		h2 := dyncrc16.New()
